@@ -25,7 +25,8 @@ CONSTANTS P, MaxN, MaxT,
           MsgVals,      \* message scalars (non-zero)
           Kinds,        \* subset of {"ok", "bad", "wrongmsg", "other", "stale"}
           MaxArrivals,  \* shares delivered to the miner
-          MaxPerParty   \* deliveries per sender
+          MaxPerParty,  \* deliveries per sender
+          MaxInvalid    \* deliveries that are not genuine shares of this (round, timeout count)
 
 VARIABLES t, n, F, h,
           stored,       \* function: sender -> stored share value (the round's share map)
@@ -63,6 +64,7 @@ RecoverStored(st) ==
 Arrive(j, k) ==
   /\ Len(hist) < MaxArrivals /\ j \in Parties /\ k \in Kinds /\ Count(j) < MaxPerParty
   /\ (k = "other" => n > 1)
+  /\ (k # "ok" => Cardinality({i \in 1..Len(hist) : hist[i][2] # "ok"}) < MaxInvalid)
   /\ hist' = Append(hist, <<j, k>>)
   /\ LET v == ShareVal(j, k)
          ok == Ver(v, Public(j), h, P)
